@@ -542,7 +542,8 @@ class LBFGSB:
             callback: Optional[Callable[[np.ndarray], None]] = None,  # type: ignore
         ):
             self.startTime = time.perf_counter()
-            self.time_trace = np.zeros((maxiter,))
+            # scipy always completes (and reports) one iteration, also for maxiter=0
+            self.time_trace = np.zeros((max(maxiter, 1),))
             self.iter = 0
             self._callback = callback
 
